@@ -3,6 +3,7 @@ SPECIFICATION Spec
 INVARIANT QuiescentMeansDrained
 CHECK_DEADLOCK FALSE
 CONSTANTS
+  ExactTail = TRUE
   Fixed = FALSE
   ArriveDuringPoll = FALSE
   MayClose = FALSE
